@@ -2,6 +2,7 @@
  *
  *   script o<k> <key> <ops>   store a heart_beat script in /c11/reg (read back by the LPC objects)
  *   do o<k> <op>              apply do_op(<op>) in o<k>            (top-level operation)
+ *   tflags <n>                MAIN_OPTION (timer_flags) = n (bit TIMER_FLAG_HEARTBEAT decides whether a tick runs a round)
  *   tick                      one timer tick: the real call_heart_beat() through the hook verif_tick(),
  *                             wrapped in the same error recovery as backend() (save_context / setjmp /
  *                             restore_context), so an error in a heart_beat abandons the round as in the real loop
@@ -13,6 +14,7 @@
 #include "vh.h"
 #include <time.h>
 #include "src/main.h"
+#include "lib/efuns/replace_program.h"
 
 extern void verif_tick (void);
 extern int heart_beat_flag;
@@ -97,15 +99,52 @@ static void c11_do (char *oid, char *op)
     vh_out ("r %s do_op !err", oid);
 }
 
+/* harness-level id of an object (through the LPC registry) */
+static const char *c11_oid_of (object_t * ob)
+{
+  static char buf[64];
+  error_context_t econ;
+  object_t *reg = c11_vreg ();
+  snprintf (buf, sizeof buf, "?");
+  if (!reg)
+    return buf;
+  save_context (&econ);
+  if (!setjmp (econ.context))
+    {
+      svalue_t *ret;
+      char *fn = make_shared_string ("oid_of");
+      push_object (ob);
+      ret = apply (fn, reg, 1, ORIGIN_DRIVER);
+      free_string (fn);
+      if (ret && ret->type == T_STRING)
+        snprintf (buf, sizeof buf, "%s", ret->u.string);
+      pop_context (&econ);
+    }
+  else
+    {
+      restore_context (&econ);
+      pop_context (&econ);
+    }
+  return buf;
+}
+
 static void c11_tick (void)
 {
   error_context_t econ;
+  replace_ob_t *r;
   c11_ticks++;
-  vh_out ("tickbegin");
-  /* top of the backend() loop */
+  /* top of the backend() loop: remove_destructed_objects() swaps the programs queued by replace_program() */
   current_interactive = 0;
   eval_cost = CONFIG_INT (__MAX_EVAL_COST__);
+  for (r = obj_list_replace; r; r = r->next)
+    if (!(r->ob->flags & O_DESTRUCTED))
+      vh_out ("rpdone %s", c11_oid_of (r->ob));
   remove_destructed_objects ();
+  /* the harness echoes the configuration it set itself: without TIMER_FLAG_HEARTBEAT no round is expected */
+  if (MAIN_OPTION (timer_flags) & TIMER_FLAG_HEARTBEAT)
+    vh_out ("tickbegin");
+  else
+    vh_out ("tickbegin off");
   save_context (&econ);
   if (setjmp (econ.context))
     {
@@ -126,6 +165,15 @@ static int c11_cmd (char *line)
   if (!strcmp (line, "tick"))
     {
       c11_tick ();
+      return 1;
+    }
+  if (!strncmp (line, "tflags ", 7))
+    {
+      int n = atoi (line + 7);
+      if (n < 0 || n > 7)
+        return 0;
+      MAIN_OPTION (timer_flags) = n;
+      vh_out ("tflags %d", n);
       return 1;
     }
   if (!strncmp (line, "script ", 7))
